@@ -39,9 +39,10 @@ REAL = ["ecdsa._rwlock.RWLock/_LightSwitch (unmodified algorithm)", "ecdsa.ellip
         "ecdsa.numbertheory", "ecdsa.keys / ecdh / plug-in ECC proxies (library-level programs on NIST256p)"]
 STUBS = ["threading.Lock -> SimLock (parks threads, raises on release of an unlocked lock)",
          "thread scheduling -> Sched (baton passing)", "clock -> virtual (sim.sleep)", "RNG -> per-thread seeded stream"]
-PROBES = ["two-readers-inside", "writer-parked-while-readers-inside", "reader-parked-behind-writer",
+PROBES = ["preempt-inside-mul_add", "two-readers-inside", "writer-parked-while-readers-inside", "reader-parked-behind-writer",
           "preempt-inside-precompute", "preempt-inside-scale", "table-built-in-run", "clock-jump",
           "three-threads", "sweep-run", "instr-mode"]
+THOROUGH_ONLY_PROBES = ["instr-mode", "sweep-run"]
 ASSUMPTIONS = ["writer priority / who goes first is not part of the property and is never demanded",
                "releasing a mutex from another thread than the taker is legal (light switch) and not flagged"]
 
@@ -580,6 +581,13 @@ def _run_curve(case, out):
         npre = sum(1 for d in s.decisions if d[3] == "preempt")
         out.fired["preempt"] += npre
         out.nontrivial = npre > 0
+        for stack in s.preempt_stacks:
+            if "_maybe_precompute" in stack:
+                out.probes["preempt-inside-precompute"] += 1
+            if "scale" in stack:
+                out.probes["preempt-inside-scale"] += 1
+            if "mul_add" in stack:
+                out.probes["preempt-inside-mul_add"] += 1
         if len(progs) >= 3:
             out.probes["three-threads"] += 1
         if case.get("sweep"):
